@@ -278,7 +278,7 @@ pub fn eval<D: Dom>(c: &Case<D>, mode: Mode, o: &mut Out) -> Evaluated {
             Mode::C01 => "s",
             Mode::C02 => "wct",
             Mode::C07 => if D::NAME == "str" { "wsctu" } else { "wsct" },
-            Mode::C09 => "w",
+            Mode::C09 => "wp",
             Mode::C08 => "wt",
             Mode::C17 | Mode::C05 => "",
             _ => "wsct",
@@ -290,6 +290,8 @@ pub fn eval<D: Dom>(c: &Case<D>, mode: Mode, o: &mut Out) -> Evaluated {
             if which.contains('c') { want.push("complete 1"); }
             if which.contains('t') { want.push("tight 1"); }
             if which.contains('u') { want.push("slab 1 unamb 1 vdet 1 eroot 1 esc 1"); }
+            // populate_scopes and add_pattern's key lists, recomputed by the model on the dumped graph
+            if which.contains('p') { want.push("scopes () mkeys ()"); }
             o.case(
                 sexp::l(vec![sexp::a("cert"), sexp::a(D::NAME), sexp::a(which), b.dump.clone(), sexp::list(&c.pats, D::pat_s), sexp::list(&b.present, |x| sexp::b(*x))]).to_string(),
                 format!("({})", want.join(" ")),
